@@ -244,4 +244,115 @@ Section Match.
           intros v Hv. apply in_app_or in Hv. destruct Hv as [Hv | Hv]; [eapply bound_pext; [exact E2 | apply B1; exact Hv] | apply B2; exact Hv].
     Qed.
   End Level.
+
+  Lemma probe_rigid t h cs : rigid_head h = true -> probe_tm t (Node h cs) = None.
+  Proof. destruct h; try discriminate; reflexivity. Qed.
+
+  Lemma mstate_bind t v c u : mstate θ t -> get t v = Some c -> cval c = Unbound u ->
+    mstate θ (set_value v (Bound (θ v)) t).
+  Proof.
+    intros M E B w cw Ew. rewrite get_set_value in Ew. destruct (get t w) as [c0 |] eqn:E0; cbn [option_map] in Ew; [| discriminate Ew].
+    inversion Ew; subst cw. clear Ew. destruct (M w c0 E0) as (Cw & Gw & Vw).
+    destruct (N.eqb_spec (ccls c0) v) as [Q | Q]; cbn [ccls cval].
+    - rewrite Cw in Q. split; [symmetry; exact Q | split; [exact Gw | rewrite Q; reflexivity]].
+    - auto.
+  Qed.
+
+  Lemma match_complete : forall f a t,
+    pattern a = true -> (depth (app_subst θ a) < f)%nat -> mstate θ t -> (forall v, In v (pvars a) -> v < nvars t) ->
+    exists t', rel adt_var fn_var f Invariant a (app_subst θ a) t = (Done tt, t', []) /\ match_post a t t'.
+  Proof.
+    induction f as [| f IH]; intros a t P D M SC; [lia |].
+    assert (Ga : ground (app_subst θ a) = true).
+    { apply pattern_ground; [exact P |]. intros v Hv. eapply mstate_ground; [exact M | apply SC; exact Hv]. }
+    cbn [rel]. rewrite (pattern_kind a P), (ground_kind _ Ga). unfold rel_ty. rewrite bind_get_table'.
+    destruct (pattern_inv _ P) as [(v & ->) | (h & cs & -> & Rh & Lf & Pcs)].
+    - (* an unknown *)
+      cbn [app_subst] in *. set (b := θ v) in *.
+      destruct (get_lt_some t v (SC v ltac:(cbn [pvars]; left; reflexivity))) as (c & E).
+      destruct (M v c E) as (Cv & Gb & Vb). fold b in Gb, Vb.
+      unfold shallow_ty at 2. rewrite (probe_ground t b Gb).
+      destruct (cval c) as [u | x] eqn:B.
+      + (* unbound: bind it *)
+        assert (PA : probe_tm t (Node (HInfer v General) []) = None) by (cbn [probe_tm]; rewrite E, B; reflexivity).
+        unfold shallow_ty. rewrite PA. unfold rel_ty_norm.
+        assert (NE : tm_eqb (Node (HInfer v General) []) b = false).
+        { destruct (tm_eqb (Node (HInfer v General) []) b) eqn:Q; [| reflexivity]. apply tm_eqb_eq in Q. rewrite <- Q in Gb. discriminate Gb. }
+        rewrite NE. cbn [tcls_of].
+        assert (TB : tcls_of b = CPh \/ tcls_of b = COther).
+        { destruct b as [| | hb cb]; try discriminate Gb. apply ground_node in Gb. destruct Gb as (Rb & _). destruct hb; try discriminate Rb; cbn [tcls_of]; auto. }
+        assert (RV : rel_var_ty adt_var fn_var f (rel adt_var fn_var f) Invariant v General b t
+                     = (Done tt, set_value v (Bound b) t, [])).
+        { unfold rel_var_ty. rewrite bind_get_cell, E, B.
+          assert (Db : (depth b <= f)%nat) by lia.
+          rewrite (bind_done _ _ _ _ _ _ (occ_ground f v u 0 b t Gb Vb Db)).
+          rewrite (bind_done _ _ _ _ _ _ (gen_ground adt_var fn_var f u Invariant b t Gb Db)).
+          assert (BV : bind_var v b t = (Done tt, set_value v (Bound b) t, [])).
+          { unfold bind_var. rewrite bind_get_cell, E, B, Cv. reflexivity. }
+          rewrite (bind_done _ _ _ _ _ _ BV).
+          destruct f as [| f']; [pose proof (depth_pos b); lia |].
+          rewrite (rel_ground_refl adt_var fn_var f' Invariant b _ Gb). reflexivity. }
+        exists (set_value v (Bound b) t). split.
+        * destruct TB as [-> | ->]; exact RV.
+        * split; [eapply mstate_bind; eassumption |]. split; [apply nvars_set_value |]. split.
+          -- split.
+             ++ intros w x (cw & Ew & Bw). exists cw. split; [| exact Bw]. rewrite get_set_value, Ew. cbn [option_map].
+                destruct (N.eqb_spec (ccls cw) v) as [Q | Q]; [| reflexivity].
+                destruct (M w cw Ew) as (Cw & _). rewrite Cw in Q. subst w. rewrite E in Ew. inversion Ew; subst. rewrite B in Bw. discriminate Bw.
+             ++ intros w1 w2 (c1 & c2 & E1 & E2 & Q). eexists. eexists. rewrite !get_set_value, E1, E2. cbn [option_map].
+                split; [reflexivity |]. split; [reflexivity |]. destruct (N.eqb_spec (ccls c1) v), (N.eqb_spec (ccls c2) v); cbn [ccls]; congruence.
+          -- intros w [<- | []]. eexists. rewrite get_set_value, E. cbn [option_map]. rewrite Cv, N.eqb_refl. split; reflexivity.
+      + (* already bound, to its θ-value *)
+        subst x. unfold shallow_ty. cbn [probe_tm]. rewrite E, B. rewrite (probe_ground t b Gb).
+        unfold rel_ty_norm. rewrite tm_eqb_refl. exists t. split; [reflexivity |].
+        split; [exact M |]. split; [reflexivity |]. split; [apply pext_refl |].
+        intros w [<- | []]. exists c. auto.
+    - (* a rigid node *)
+      rewrite (app_subst_rigid θ h cs Rh) in *. unfold shallow_ty. rewrite !(probe_rigid t h _ Rh). unfold rel_ty_norm.
+      destruct (tm_eqb (Node h cs) (Node h (map (app_subst θ) cs))) eqn:EQ.
+      + apply tm_eqb_eq in EQ. exists t. split; [reflexivity |]. split; [exact M |]. split; [reflexivity |]. split; [apply pext_refl |].
+        rewrite <- EQ in Ga. rewrite (ground_no_pvars _ P Ga). intros v [].
+      + assert (TC : tcls_of (Node h cs) = CPh /\ cs = [] \/ (tcls_of (Node h cs) = COther /\ structural_head h = true)).
+        { destruct h; try discriminate Rh; cbn [tcls_of structural_head]; auto. left. split; [reflexivity |]. destruct cs; [reflexivity | discriminate Lf]. }
+        destruct TC as [[_ ->] | [TC SH]]; [cbn [map] in EQ; rewrite tm_eqb_refl in EQ; discriminate EQ |].
+        assert (TC' : tcls_of (Node h (map (app_subst θ) cs)) = COther) by (destruct h; try discriminate Rh; try discriminate TC; reflexivity).
+        rewrite TC, TC', SH. unfold head_eqb. destruct (head_eq_dec h h) as [_ | Q]; [| contradiction]. cbn [andb].
+        assert (Dcs : Forall (fun c => (depth (app_subst θ c) < f)%nat) cs).
+        { pose proof (depth_children h (map (app_subst θ) cs)) as Dc. rewrite Forall_forall in *. intros c Hc.
+          specialize (Dc (app_subst θ c) (in_map _ _ _ Hc)). lia. }
+        destruct (match_zip f IH (child_variance adt_var fn_var h Invariant) ltac:(intros i; destruct h; cbn [child_variance xform]; try reflexivity; destruct i; reflexivity)
+                            cs 0%nat t Pcs Dcs M ltac:(intros v Hv; apply SC; rewrite (pvars_rigid h cs Rh); exact Hv))
+          as (t' & R & M' & N' & E' & B').
+        exists t'. split; [exact R |]. split; [exact M' |]. split; [exact N' |]. split; [exact E' |].
+        intros v Hv. apply B'. rewrite (pvars_rigid h cs Rh) in Hv. exact Hv.
+  Qed.
+
+  (** [InferenceTable::relate] on a pattern and its ground instance. *)
+  Lemma relate_complete_partial_lemma fuel a t :
+    pattern a = true -> (depth (app_subst θ a) < fuel)%nat -> mstate θ t -> (forall v, In v (pvars a) -> v < nvars t) ->
+    exists t', relate adt_var fn_var fuel Invariant a (app_subst θ a) t = (Done [], t')
+               /\ nvars t' = nvars t /\ pext t t' /\ mstate θ t' /\ (forall v, In v (pvars a) -> bound_to t' v (θ v)).
+  Proof.
+    intros P D M SC. destruct (match_complete fuel a t P D M SC) as (t' & R & M' & N' & E' & B').
+    exists t'. unfold relate. rewrite R. cbn [retain_goals filter]. unfold commit. auto.
+  Qed.
 End Match.
+
+(** Non-vacuity: the pattern [(?0, Adt1<?1>, ?0)] against [(u32, Adt1<[!1_0]>, u32)] with
+    [?0] in the root universe and [?1] in universe 1. *)
+Example relate_complete_nonvacuous :
+  let t := snd (new_variable 1 (snd (new_variable 0 (snd (new_universe empty_table))))) in
+  let u32 := Node (HScalar (Uint U32)) [] in
+  let θ := fun v : N => if v =? 0 then u32 else Node HSlice [Node (HPlaceholder 1 0) []] in
+  let a := Node (HTuple 3) [ty_var 0 General; Node (HAdt 1) [ty_var 1 General]; ty_var 0 General] in
+  pattern a = true /\ (depth (app_subst θ a) < 20)%nat /\ mstate θ t /\ (forall v, In v (pvars a) -> v < nvars t)
+  /\ app_subst θ a = Node (HTuple 3) [u32; Node (HAdt 1) [Node HSlice [Node (HPlaceholder 1 0) []]]; u32]
+  /\ exists t', relate (fun _ => []) (fun _ => []) 20 Invariant a (app_subst θ a) t = (Done [], t') /\ t' <> t.
+Proof.
+  cbv zeta. split; [reflexivity |]. split; [cbn; lia |]. split; [| split; [| split; [reflexivity |]]].
+  - intros v c E. pose proof (get_some_lt _ _ _ E) as L. vm_compute in L.
+    assert (Hv : v = 0 \/ v = 1) by (destruct v as [| [p | p |]]; try discriminate L; auto; destruct p; discriminate L).
+    destruct Hv; subst v; vm_compute in E; inversion E; subst c; vm_compute; auto.
+  - intros v Hv. cbn in Hv. destruct Hv as [<- | [<- | [<- | []]]]; vm_compute; reflexivity.
+  - eexists. split; [vm_compute; reflexivity | intros Q; discriminate Q].
+Qed.
